@@ -93,4 +93,36 @@ pub(crate) mod kani_gf2 {
         }
         kani::cover!(len == 3 && i == 5 && j == 1, "reach");
     }
+
+    // util::get_both_indices (rule S6 of V-SPMAT models `get_both_indices(&mut v, i, j)` as "element i, element j, in that order"):
+    // BOUNDED: a vector of 8 words; i, j symbolic and distinct.
+    #[kani::proof]
+    #[kani::unwind(10)]
+    pub(crate) fn get_both_indices_are_elements_i_and_j() {
+        let mut v: [u64; 8] = kani::any();
+        let before = v;
+        let i: usize = kani::any();
+        let j: usize = kani::any();
+        kani::assume(i < 8 && j < 8 && i != j);
+        let a: u64 = kani::any();
+        let b: u64 = kani::any();
+        {
+            let (r0, r1) = crate::util::get_both_indices(&mut v[..], i, j);
+            assert!(*r0 == before[i] && *r1 == before[j], "C16 get_both_indices: first result is element i, second is element j");
+            *r0 = a;
+            *r1 = b;
+        }
+        let mut k = 0;
+        while k < 8 {
+            if k == i {
+                assert!(v[k] == a, "C16 get_both_indices: a write through the first result lands at i");
+            } else if k == j {
+                assert!(v[k] == b, "C16 get_both_indices: a write through the second result lands at j");
+            } else {
+                assert!(v[k] == before[k], "C16 get_both_indices: no other element changes");
+            }
+            k += 1;
+        }
+        kani::cover!(i == 6 && j == 2, "reach");
+    }
 }
